@@ -35,16 +35,16 @@ def run_table(module, table, timeout=1800, workers=1, heap="4g"):
 # --------------------------------------------------------------------------- C08
 
 
-def c08_table(vmax, timemax, assocmax):
+def c08_table(vmax, timemax, assocmax, lengths=(1, 2, 3), pmax=3):
     from mosaik.tiered_time import TieredInterval as TI, TieredTime as TT
 
     V = range(vmax + 1)
     classes = {}
     allivs = []
-    for n in (1, 2, 3):
+    for n in lengths:
         for tiers in itertools.product(V, repeat=n):
             for c in range(1, n + 1):
-                for p in range(c, 4):
+                for p in range(c, pmax + 1):
                     iv = TI(*tiers, cutoff=c, pre_length=p)
                     classes.setdefault((n, p), []).append(iv)
                     allivs.append(iv)
@@ -103,13 +103,9 @@ def c08_table(vmax, timemax, assocmax):
 _R08 = re.compile(r'<<"R08", (\d+), (\d+), \{(.*)\}\s*>>$', re.S)
 
 
-def c08(tier, seed):
-    t0 = time.time()
-    vmax = 2
-    table, nivs = c08_table(vmax, timemax=vmax + 1, assocmax=1 if tier == "quick" else 2)
+def _c08_judge(table):
     out, secs = run_table("TieredOrder", table, timeout=3000)
     findings = []
-    npairs = sum(len(c["ivs"]) ** 2 for c in table["classes"])
     nc = len(table["classes"])
     done = set()
     phases = 0
@@ -135,20 +131,36 @@ def c08(tier, seed):
             findings.append(checklib.Finding("C08", "C08_not_associative", case={"id": ["assoc"], "kind": "c08"}, detail=m.group(3)[:500]))
     if not phases or done != set(range(1, phases + 1)):
         raise tlc.TLCError("TieredOrder did not complete\n" + "\n".join(out.splitlines()[-30:]))
-    st = tlc.stats(out)
+    npairs = sum(len(c["ivs"]) ** 2 for c in table["classes"])
+    return findings, tlc.stats(out), secs, npairs + len(table["adds"]) + len(table["applies"]), npairs
+
+
+def c08(tier, seed):
+    t0 = time.time()
+    vmax = 2
+    table, nivs = c08_table(vmax, timemax=vmax + 1, assocmax=1 if tier == "quick" else 2)
+    findings, st, secs, nres, npairs = _c08_judge(table)
+    # simulators three groups deep have four tiers: the same laws for every interval of length 4 (tier values 0..1)
+    table4, nivs4 = c08_table(1, timemax=2, assocmax=0, lengths=(4,), pmax=4)
+    f4, st4, secs4, nres4, npairs4 = _c08_judge(table4)
+    for f in f4:
+        f.case["id"] = ["len4"] + f.case["id"]
+    findings += f4
     cov = {
-        "states": st["distinct"], "transitions": st["generated"], "traces_validated_against_impl": npairs + len(table["adds"]) + len(table["applies"]),
+        "states": st["distinct"] + st4["distinct"], "transitions": st["generated"] + st4["generated"], "traces_validated_against_impl": nres + nres4,
         "samples": [{"a": table["classes"][3]["ivs"][1], "b": table["classes"][3]["ivs"][5], "lt": table["classes"][3]["lt"][1][5]},
                     table["adds"][100], table["applies"][50]],
-        "evaluations": npairs + len(table["adds"]) + len(table["applies"]),
-        "distinct_nontrivial": npairs + len(table["adds"]) + len(table["applies"]),
+        "evaluations": nres + nres4,
+        "distinct_nontrivial": nres + nres4,
         "rule": f"all {nivs} TieredIntervals with length<=3, 1<=cutoff<=length, cutoff<=pre_length<=3, tier values 0..{vmax}: every same-class ordered pair "
                 f"({npairs}) with the results of <, ==, >, <=, min; every type-correct a+b ({len(table['adds'])}); every time+interval ({len(table['applies'])}); "
                 f"pointwise order over times with tier values 0..{vmax + 1}; associativity of the specification's Compose over tier values 0..{table['assocmax']}. "
+                f"Plus all {nivs4} intervals of length 4 (cutoff<=pre_length<=4, tier values 0..1; {npairs4} same-class pairs, {len(table4['adds'])} sums, "
+                f"{len(table4['applies'])} applications; pointwise order over times with tier values 0..2). "
                 "Each recorded result is one validated 'trace'; all are distinct inputs.",
         "exhaustive": True,
-        "checker_cmd": "tlc -workers 1 -config TieredOrder.cfg TieredOrder (TRACE_FILE=<table>)",
-        "tlc_secs": round(secs, 1),
+        "checker_cmd": "tlc -workers 1 -config TieredOrder.cfg TieredOrder (TRACE_FILE=<table>), twice",
+        "tlc_secs": round(secs + secs4, 1),
     }
     return checklib.conclude("C08", tier, seed, findings, cov, t0, ASSUME, max_report=3)
 
@@ -610,7 +622,7 @@ class _RecWorld:
         self.calls.append((src, dest, attrs, kw))
 
 
-def _bulk_run(ns, nd, evenly, maxc, rnd):
+def _bulk_run(ns, nd, evenly, maxc, rnd, as_float=False):
     from mosaik import util
 
     w = _RecWorld()
@@ -622,7 +634,8 @@ def _bulk_run(ns, nd, evenly, maxc, rnd):
     try:
         kw = {"evenly": evenly}
         if maxc:
-            kw["max_connects"] = maxc
+            # a finite limit may be given as a float (2.0, 4/2, the result of a ceil) - the default itself is the float inf
+            kw["max_connects"] = float(maxc) if as_float else maxc
         ret = util.connect_randomly(w, src, list(dst), "a", ("b", "c"), **kw)
         row.update({"ok": True, "ret": sorted(int(d[1:]) for d in ret)})
     except BaseException as e:  # noqa: BLE001
@@ -639,14 +652,14 @@ def c18_exhaustive(max_ns, max_nd):
     rows = []
     for ns in range(0, max_ns + 1):
         for nd in range(1, max_nd + 1):
-            for evenly, maxc in [(True, 0), (False, 0), (False, 1), (False, 2), (False, 3)]:
+            for evenly, maxc, as_float in [(True, 0, False), (False, 0, False), (False, 1, False), (False, 2, False), (False, 3, False), (False, 2, True)]:
                 if not evenly and maxc and ns > nd * maxc:
                     continue
                 stack = [[]]
                 while stack:
                     script = stack.pop()
                     rnd = _ScriptedRandom(script)
-                    row = _bulk_run(ns, nd, evenly, maxc, rnd)
+                    row = _bulk_run(ns, nd, evenly, maxc, rnd, as_float)
                     row["script"] = script
                     rows.append(row)
                     # expand the first decision beyond the script
@@ -672,7 +685,7 @@ def c18(tier, seed):
         if maxc and rng.random() < 0.3:
             ns = nd * maxc  # exactly filled (D5)
         r = pyrandom.Random(rng.random())
-        rows.append(_bulk_run(ns, nd, evenly, maxc, r))
+        rows.append(_bulk_run(ns, nd, evenly, maxc, r, as_float=bool(maxc) and rng.random() < 0.3))
     # connect_many_to_one
     from mosaik import util
 
@@ -723,7 +736,7 @@ def c18(tier, seed):
         "samples": [rows[40], rows[-1]],
         "evaluations": len(rows) + 12, "distinct_nontrivial": len({json.dumps([r["ns"], r["nd"], r["evenly"], r["maxc"], r["calls"]]) for r in rows}),
         "rule": f"connect_randomly with the random source scripted: ALL choice sequences (every randint value, every shuffle permutation) for |src| <= "
-                f"{4 if tier == 'quick' else 5}, |dest| <= 3, evenly / max_connects in (unlimited,1,2,3) ({nexh} runs, exhaustive) + {nseeded} seeded runs with "
+                f"{4 if tier == 'quick' else 5}, |dest| <= 3, evenly / max_connects in (unlimited,1,2,3 and 2.0 given as a float) ({nexh} runs, exhaustive) + {nseeded} seeded runs with "
                 "|dest| <= 30 incl. exactly-filled capacities; each run's sequence of World.connect calls and returned set is replayed by TLC against BulkConnect's rules; "
                 "connect_many_to_one for 0..5 sources x async_requests; the specification itself is model-checked for |src| <= 4, |dest| <= 3; distinct = distinct call sequences",
         "exhaustive": False,
@@ -743,11 +756,12 @@ C15_VERSIONS = ["1", "2", "2.0", "2.1", "2.1.9", "2.2", "2.2.0", "2.10", "3", "3
 
 
 def _c15_meta(ver, hastype):
+    """hastype: False (no type), True (time-based) or the declared type itself."""
     meta = {"models": {"M": {"public": True, "params": [], "attrs": ["i", "p"]}}}
     if ver is not None:
         meta["api_version"] = ver
     if hastype:
-        meta["type"] = "time-based"
+        meta["type"] = "time-based" if hastype is True else hastype
     return meta
 
 
@@ -788,6 +802,8 @@ def _c15_inproc(ver, explicit, kind, hastype, fail=None):
                 fac = world.start("S", sim_id="Sa")
                 res["type_seen"] = fac.type
                 fac.M()
+                if hastype == "event-based":
+                    world.set_initial_event("Sa", 0)
                 world.run(until=3, print_progress=False)
             except ScenarioError as e:
                 res["out"], res["msg"] = "ScenarioError", str(e)[:150]
@@ -810,7 +826,7 @@ def _c15_remote(ver, explicit, hastype):
 
     meta = _c15_meta(ver, hastype)
     meta["models"]["M"]["attrs"] = ["i", "i2", "p", "p2"]
-    sim = {"sid": "Sa", "type": "time-based", "transport": "remote", "meta": meta}
+    sim = {"sid": "Sa", "type": "time-based", "transport": "remote", "meta": meta, "initev": hastype == "event-based"}
     exp = _c15_explicit(ver, explicit)
     if exp:
         sim["api_version"] = exp
@@ -833,8 +849,10 @@ def _c15_remote(ver, explicit, hastype):
 
 def c15_rows():
     rows = []
-    ref_remote = _c15_remote("3.0", "absent", True)
-    ref_inproc = _c15_inproc("3.0", "absent", "inproc_v3", True)
+    # the run of a current-version (3.0) simulator of the same declared type is what an older one must see as well
+    refs_remote = {t: _c15_remote("3.0", "absent", t) for t in (True, "event-based", "hybrid")}
+    refs_inproc = {t: _c15_inproc("3.0", "absent", "inproc_v3", t) for t in (True, "event-based", "hybrid")}
+    ref_remote, ref_inproc = refs_remote[True], refs_inproc[True]
 
     def steps(log):
         return [x[1][0] for x in log if x[0] == "step"]
@@ -843,7 +861,7 @@ def c15_rows():
     for ver in C15_VERSIONS:
         for explicit in ("absent", "equal", "different"):
             for kind in ("remote", "inproc_v3", "inproc_old"):
-                for hastype, fail in [(True, "none"), (False, "none")] + ([(True, e) for e in C15_FAILS if e != "none"] if kind != "remote" and explicit == "absent" else []):
+                for hastype, fail in [(True, "none"), (False, "none"), ("event-based", "none"), ("hybrid", "none")] + ([(True, e) for e in C15_FAILS if e != "none"] if kind != "remote" and explicit == "absent" else []):
                     if fail != "none":
                         # the simulator's own step raises at its second call: the adapter must not turn that into further requests
                         r = _c15_inproc(ver, explicit, kind, hastype, fail=[2, fail])
@@ -851,7 +869,7 @@ def c15_rows():
                         st_ = [x for x in log if x[0] == "step"]
                         rows.append({
                             "v": [int(x) for x in ver.split(".")] if ver is not None else [1], "hasv": ver is not None, "vs": ver or "",
-                            "explicit": explicit, "kind": kind, "hastype": hastype, "out": r["out"], "msg": r["msg"], "fail": fail,
+                            "explicit": explicit, "kind": kind, "hastype": bool(hastype), "decl_type": "time-based", "out": r["out"], "msg": r["msg"], "fail": fail,
                             "init_tr": True, "setup_done": True, "step_nargs": 0, "type_seen": r.get("type_seen", ""),
                             "nargs_all": sorted({len(x[1]) for x in st_}),
                             "sameobs": steps(log) == steps(ref_fail[fail]["log"]), "failed_as_injected": r["out"] == "other" and "injected failure" in r["msg"],
@@ -862,15 +880,17 @@ def c15_rows():
                     log = r["log"]
                     init = next((x for x in log if x[0] == "init"), None)
                     step = next((x for x in log if x[0] == "step"), None)
+                    rkey = hastype if hastype in refs_remote else True
                     if kind == "remote":
                         init_tr = bool(init) and "time_resolution" in init[2]
-                        same = r["out"] != "ok" or {s: [[t, i] for t, i in v] for s, v in r["obs"].items()} == ref_remote["obs"]
+                        same = r["out"] != "ok" or {s: [[t, i] for t, i in v] for s, v in r["obs"].items()} == refs_remote[rkey]["obs"]
                     else:
                         init_tr = bool(init) and bool(init[2].get("__got_time_resolution__"))
-                        same = r["out"] != "ok" or steps(log) == steps(ref_inproc["log"])
+                        same = r["out"] != "ok" or steps(log) == steps(refs_inproc[rkey]["log"])
                     rows.append({
                         "v": [int(x) for x in ver.split(".")] if ver is not None else [1], "hasv": ver is not None, "vs": ver or "",
-                        "explicit": explicit, "kind": kind, "hastype": hastype, "out": r["out"], "msg": r["msg"],
+                        "explicit": explicit, "kind": kind, "hastype": bool(hastype), "decl_type": "" if not hastype else ("time-based" if hastype is True else hastype),
+                        "out": r["out"], "msg": r["msg"],
                         "init_tr": init_tr, "setup_done": any(x[0] == "setup_done" for x in log),
                         "step_nargs": len(step[1]) if step else 0, "type_seen": r.get("type_seen", ""), "sameobs": bool(same),
                         "fail": "none", "nargs_all": sorted({len(x[1]) for x in log if x[0] == "step"}), "failed_as_injected": False,
@@ -892,7 +912,7 @@ def c15(tier, seed):
         "samples": [rows[3], next(r for r in rows if r["out"] == "ok" and r["vs"] == "2.1" and r["kind"] == "remote")],
         "evaluations": len(rows), "distinct_nontrivial": len(rows),
         "rule": f"api_version in {C15_VERSIONS} x explicit api_version (absent / equal / different) x (remote stub behind the shipped RemoteProxy over fake streams, "
-                "in-process stub with v3 signatures, in-process stub with old signatures) x meta with/without type x (in-process) the stub's second step raising ValueError / RuntimeError / KeyError; each row = world.start + create + run(until=3) "
+                "in-process stub with v3 signatures, in-process stub with old signatures) x meta without type / with type time-based, event-based, hybrid x (in-process) the stub's second step raising ValueError / RuntimeError / KeyError; each row = world.start + create + run(until=3) "
                 "with the exact requests the stub received; compared with the run of a 3.0 stub",
         "exhaustive": True,
         "outcomes": dict(collections.Counter((r["kind"], r["out"]) .__str__() for r in rows)),
